@@ -819,7 +819,29 @@ func (in *Interp) store(p Value, v Value) {
 		in.tpanic("nil-deref", "runtime error: invalid memory address or nil pointer dereference")
 	}
 	in.onWrite(ptr)
-	*ptr = copyVal(v)
+	assignInPlace(ptr, v)
+}
+
+// assignInPlace stores v into the cell: aggregates keep their element cells (memory locations persist, so
+// pointers to fields and elements taken earlier observe the new content), everything else is replaced
+func assignInPlace(dst *Value, v Value) {
+	switch src := v.(type) {
+	case Struct:
+		if cur, ok := (*dst).(Struct); ok && len(cur) == len(src) && len(cur) > 0 {
+			for i := range src {
+				assignInPlace(&cur[i], src[i])
+			}
+			return
+		}
+	case Array:
+		if cur, ok := (*dst).(Array); ok && len(cur) == len(src) && len(cur) > 0 {
+			for i := range src {
+				assignInPlace(&cur[i], src[i])
+			}
+			return
+		}
+	}
+	*dst = copyVal(v)
 }
 
 func (in *Interp) lookup(instr *ssa.Lookup, x, idx Value) Value {
